@@ -14,7 +14,7 @@ RULE = ("A case is a schedule of operations on one client connection of a real H
         "heads / chunk headers, partial heads), peer closes, and completions of deferred hooks / connection attempts; plus an "
         "addon policy per (flow, hook) in {pass, kill, set response, stream, stream+set response} x {complete now, defer}, a "
         "connect outcome per server connection {ok, fail, defer} and options (body_size_limit, stream_large_bodies, "
-        "validate_inbound_headers, store_streamed_bodies). 70%: a base exchange sequence (1-3 requests, all framings) cut by "
+        "validate_inbound_headers, store_streamed_bodies). 70%: a base exchange sequence (1-3 requests, all framings, WebSocket/other upgrade attempts answered by 101 or refused with and without Upgrade headers) cut by "
         "a fault at a generated position; 30%: random token soup. Thorough additionally enumerates every fault position x "
         "fault kind x single-hook policy for a fixed list of base exchanges. Non-trivial = a fault, a deferred completion or a "
         "non-pass action is present and at least one hook fired; distinct by canonical JSON.")
@@ -60,6 +60,8 @@ def req_head(t):
         extra += b"X@y: 1\r\n"
     if t.get("close"):
         extra += b"Connection: close\r\n"
+    if t.get("ws"):
+        extra += b"Upgrade: websocket\r\nSec-WebSocket-Version: 13\r\n"
     exp = b"Expect: 100-continue\r\n" if t.get("exp") else b""
     if m == b"CONNECT":
         target = host + b":443"
@@ -77,8 +79,11 @@ def req_head(t):
 
 def resp_head(t):
     st = t["st"]
-    reason = {200: b"OK", 204: b"No Content", 304: b"Not Modified", 101: b"Switching Protocols", 500: b"Internal Server Error"}[st]
+    reason = {200: b"OK", 204: b"No Content", 304: b"Not Modified", 101: b"Switching Protocols", 500: b"Internal Server Error",
+              426: b"Upgrade Required", 400: b"Bad Request"}[st]
     extra = b""
+    if t.get("up"):
+        extra += b"Upgrade: " + t["up"].encode() + b"\r\n"
     if t.get("inv"):
         extra += b"X@y: 1\r\n"
     if t.get("close"):
@@ -314,8 +319,20 @@ def oracle(case, obs):
             if n == 0:
                 out.append({"key": "no-outcome-" + outcome_family(hs), "what": "flow %d ends with hooks %s" % (fo, hs)})
             if fl["live"]:
-                out.append({"key": "still-live", "what": "flow %d is live after all connections closed (hooks %s)" % (fo, hs)})
+                out.append({"key": "still-live" + live_family(case), "what": "flow %d is live after all connections closed (hooks %s)" % (fo, hs)})
     return out
+
+
+def _replaced_101(case):
+    saw101 = any(t.get("st") == 101 for op in case["sched"] if op[0] == "s" for t in op[2])
+    replaced = any(a in ("resp", "sresp") and k.split(":")[1] in ("responseheaders", "response")
+                   for k, a in case.get("pol", {}).items())
+    return saw101 and replaced
+
+
+def live_family(case):
+    # an addon replacing the 101 response of a WebSocket handshake in the response hook: flow.websocket stays set
+    return "-replaced-101" if _replaced_101(case) else ""
 
 
 def crash_family(case, obs):
@@ -354,6 +371,13 @@ def classify(case, obs):
         tags.append("unsettled")
     for a in set(case.get("pol", {}).values()):
         tags.append("act:" + a)
+    toks = [t for op in case["sched"] if op[0] in ("c", "s") for t in op[-1]]
+    if any(t.get("ws") for t in toks):
+        tags.append("ws-request")
+    for t in toks:
+        if t.get("up"):
+            tags.append("upgrade:%s:%s" % (t["up"], "101" if t.get("st") == 101 else "non101"))
+            break
     if case.get("defer"):
         tags.append("deferred")
     if case.get("conn"):
@@ -407,6 +431,14 @@ BASES = [
     [(_rq("CONNECT"), [], _rs(), [])],
     [(_rq(), [], _rs(101, ("n",)), [])],
     [(_rq(), [], _rs(), [_d("ok")]), (_rq("CONNECT"), [], _rs(), [])],
+    # upgrade attempts: accepted, refused with and without Upgrade headers, other protocol; followed by more traffic
+    [(_rq(ws=True), [], _rs(101, ("n",), up="websocket"), [])],
+    [(_rq(ws=True), [], _rs(426, ("cl", 2), up="websocket"), [_d("no")]), (_rq(), [], _rs(), [_d("ok")])],
+    [(_rq(ws=True), [], _rs(200, ("cl", 2), up="websocket"), [_d("ok")]), (_rq(), [], _rs(), [_d("ok")])],
+    [(_rq(ws=True), [], _rs(400, ("cl", 3)), [_d("bad")]), (_rq(), [], _rs(), [_d("ok")])],
+    [(_rq(ws=True), [], _rs(101, ("n",), up="h2c"), [])],
+    [(_rq(), [], _rs(426, ("cl", 0), up="websocket"), []), (_rq(ws=True), [], _rs(426, ("cl", 0), up="websocket"), [])],
+    [(_rq(ws=True), [], _rs(101, ("n",)), [])],
     # response arrives before the request body is complete (meaningful when the request is streamed)
     [(_rq("POST", ("cl", 4)), [_d("ab"), _d("cd")], _rs(), [_d("ok"), _d("zz")], 1)],
     [(_rq("POST", ("ch",)), [_d("ab"), _d("cd"), E], _rs(f=("eof",)), [_d("ok")], 1)],
@@ -577,7 +609,9 @@ class _Side:
             if r == "H":
                 if self.server:
                     f = rng.choice([["cl", 0], ["cl", 2], ["cl", 3], ["ch"], ["eof"]])
-                    t = _rs(rng.choice([200, 200, 200, 500]), f, **({"close": True} if rng.chance(0.15) else {}))
+                    t = _rs(rng.choice([200, 200, 200, 500, 426, 400]), f, **({"close": True} if rng.chance(0.15) else {}))
+                    if rng.chance(0.2):
+                        t["up"] = rng.choice(["websocket", "websocket", "h2c"])
                     if rng.chance(0.05):
                         t["inv"] = True
                 else:
@@ -592,6 +626,8 @@ class _Side:
                         t["exp"] = True
                     if rng.chance(0.05):
                         t["form"] = rng.choice(["org", "nohost"])
+                    if rng.chance(0.2) and m == "GET":
+                        t["ws"] = True
                 f = t["f"]
                 if f[0] == "cl" and f[1] > 0:
                     self.mode, self.left = "cl", f[1]
@@ -736,14 +772,15 @@ def _fr(f):
 
 def _head(t):
     if "st" in t:
-        return "(mkHead %s MGet %s 0%%N true %s false %s %s)" % (
-            cbytes(resp_head(t)), _fr(t["f"]), cbool(not t.get("inv")), cbool(bool(t.get("close"))), cN(t["st"]))
+        return "(mkHead %s MGet %s 0%%N true %s false %s %s %s)" % (
+            cbytes(resp_head(t)), _fr(t["f"]), cbool(not t.get("inv")), cbool(bool(t.get("close"))), cN(t["st"]),
+            cbool(t.get("up") == "websocket"))
     m = {"GET": "MGet", "POST": "MGet", "HEAD": "MHead", "CONNECT": "MConnect"}[t["m"]]
     bad = t["t"] == "HR"
-    return "(mkHead %s %s %s %s %s %s %s %s 0%%N)" % (
+    return "(mkHead %s %s %s %s %s %s %s %s 0%%N %s)" % (
         cbytes(req_head(t)[1]), m, "HChunked" if bad else _fr(t["f"]), cN(t.get("host", 0)),
         cbool(t.get("form") != "nohost"), cbool(not (t.get("inv") or bad)), cbool(bool(t.get("exp"))),
-        cbool(bool(t.get("close") or t.get("v10"))))
+        cbool(bool(t.get("close") or t.get("v10"))), cbool(bool(t.get("ws"))))
 
 
 def _tok(t):
